@@ -228,6 +228,10 @@ def check_unary(E, name, self, r0, args, res, exc):
             own = np.asarray(self.value["value"].values._data, dtype=float)
             got = np.asarray(res.value["value"].values._data, dtype=float)
             ok = rr[0] == "h" and rr[1:4] == r0[1:4] and np.array_equal(got, np.ceil(own)) and res.unit == self.unit
+        elif name == "round":
+            own = np.asarray(self.value["value"].values._data, dtype=float)
+            got = np.asarray(res.value["value"].values._data, dtype=float) if rr[0] == "h" else None
+            ok = got is not None and rr[1:4] == r0[1:4] and np.array_equal(got, np.round(own, args[0])) and res.unit == self.unit and res is not self
         elif name == "shift":
             h = math.floor(args[0].value.to("hour").magnitude)
             ok = rr[0] == "h" and rr[1] == r0[1] and tuple(t + h * 3600 * 10**9 for t in r0[3]) == rr[3] and np.array_equal(rr[4], v)
@@ -237,6 +241,9 @@ def check_unary(E, name, self, r0, args, res, exc):
         if name == "copy": ok = same_phys(rr, r0) and res is not self
         elif name == "ceil":
             ok = rr[0] == "q" and rr[1] == r0[1] and float(res.value.magnitude) == math.ceil(float(self.value.magnitude)) and res.value.units == self.value.units
+        elif name == "round":
+            ok = (rr[0] == "q" and rr[1] == r0[1] and float(res.value.magnitude) == round(float(self.value.magnitude), args[0])
+                  and res.value.units == self.value.units and res is not self)
         else:
             ok = True
     if not ok:
@@ -322,6 +329,8 @@ def install():
         for attr, name in (("sum", "sum"), ("max", "max"), ("abs", "abs"), ("ceil", "ceil"), ("copy", "copy")):
             if attr in cls.__dict__:
                 _wrap_unary(E, cls, attr, name)
+    for cls in (Q, H):
+        _wrap_unary(E, cls, "__round__", "round")
     _wrap_unary(E, H, "mean", "mean"); _wrap_unary(E, H, "__neg__", "neg"); _wrap_unary(E, H, "return_shifted_hourly_quantities", "shift")
     _wrap_unary(E, H, "to", "to"); _wrap_unary(E, Q, "to", "to"); _wrap_unary(E, Q, "ceil", "ceil"); _wrap_unary(E, Q, "copy", "copy")
     for cls in (H, Z):
